@@ -15,8 +15,9 @@ if git apply "$d/patch.diff"; then echo "patch: applies" >> "$out"; else echo "p
 if go build ./cache/... ./proxy/... ./config/... ./utils/... ./logging/... ./webserver/auth/... ./webserver/api/... >> "$out" 2>&1; then echo "build: ok" >> "$out"; else echo "build: FAILED" >> "$out"; fi
 if go test -vet=off -count=1 ./cache/... ./config/... ./proxy/... ./tests/... ./utils/... > /tmp/cm_suite_$name.txt 2>&1; then echo "suite-with-mutant: passes" >> "$out"; else echo "suite-with-mutant: FAILS" >> "$out"; grep -E "^(---|FAIL)" /tmp/cm_suite_$name.txt | head -5 >> "$out"; fi
 cp "$d/demo_test.go.txt" "$wt/$place/zz_demo_test.go"
-if go test -vet=off -count=1 -run "^$tname\$" "./$place" > /tmp/cm_demo_$name.txt 2>&1; then echo "demo-with-mutant: PASSES (unexpected)" >> "$out"; else echo "demo-with-mutant: fails (expected)" >> "$out"; grep -E "^\s+.*_test.go|panic" /tmp/cm_demo_$name.txt | head -3 >> "$out"; fi
+race=""; if head -3 "$d/demo_test.go.txt" | grep -q "needs: -race"; then race="-race"; fi
+if go test $race -vet=off -count=1 -run "^$tname\$" "./$place" > /tmp/cm_demo_$name.txt 2>&1; then echo "demo-with-mutant: PASSES (unexpected)" >> "$out"; else echo "demo-with-mutant: fails (expected)" >> "$out"; grep -E "^\s+.*_test.go|panic" /tmp/cm_demo_$name.txt | head -3 >> "$out"; fi
 git apply -R "$d/patch.diff"
-if go test -vet=off -count=1 -run "^$tname\$" "./$place" > /tmp/cm_demo2_$name.txt 2>&1; then echo "demo-without-mutant: passes (expected)" >> "$out"; else echo "demo-without-mutant: FAILS (unexpected)" >> "$out"; tail -5 /tmp/cm_demo2_$name.txt >> "$out"; fi
+if go test $race -vet=off -count=1 -run "^$tname\$" "./$place" > /tmp/cm_demo2_$name.txt 2>&1; then echo "demo-without-mutant: passes (expected)" >> "$out"; else echo "demo-without-mutant: FAILS (unexpected)" >> "$out"; tail -5 /tmp/cm_demo2_$name.txt >> "$out"; fi
 cd /; git -C /repo worktree remove --force "$wt"; rm -f /tmp/cm_suite_$name.txt /tmp/cm_demo_$name.txt /tmp/cm_demo2_$name.txt
 cat "$out"
